@@ -241,6 +241,34 @@ def rule_get_quantizer(rep, repo):
             "pattern-group-mixes-roles",
             "the bias of a grouped layer must get its own variable (got %r)"
             % (r3,), loc=loc)
+  # overlapping name entries: a specific entry written before a broader one
+  # that also matches (the idiom {"dense_0": ..., "dense": ...}) keeps its own
+  # limit - whether the first written or the most specific entry wins, the
+  # layer named by the specific entry is not folded into the broader group
+  _, _, o = hyper(repo, {"dense_0": [2, 4, 4], "dense": [8, 8, 8],
+                         "Dense": [16, 16, 16]})
+  pe = PE(repo)
+  hp = Hp()
+  f = Func(fn, aq, [], "_get_quantizer", o, c)
+  try:
+    ra = pe.call_func(f, [hp.mock(), "dense_0_kernel", "dense_0", "Dense"],
+                      {})
+    off_a = sorted(hp.calls[-1][2]) if hp.calls else None
+    n_a = len(hp.calls)
+    rb = pe.call_func(f, [hp.mock(), "dense_1_kernel", "dense_1", "Dense"],
+                      {})
+    off_b = sorted(hp.calls[-1][2]) if len(hp.calls) > n_a else None
+    rep.check(off_a == ["kernel_2"] and off_b == sorted(
+        "kernel_%d" % b for b in BITS if b <= 8), "R4", unit,
+              "overlapping-name-entries",
+              "with limit entries 'dense_0' (2 bits) written before 'dense' "
+              "(8 bits) the kernel of layer dense_0 is offered %s and the "
+              "kernel of layer dense_1 %s; expected ['kernel_2'] and the "
+              "table up to 8 bits" % (off_a, off_b), loc=loc)
+  except PyRaise as e:
+    rep.fail("R4", unit, "overlapping-name-entries",
+             "_get_quantizer raises %s with overlapping name entries" % e,
+             loc=loc)
 
 
 def mock_layer(cname, name, **extra):
